@@ -3,21 +3,23 @@
 //
 // case line:  <id> ps=<shards> nc=<0|1> pq=<size> rq=<size> | op ; op ; ...
 // ops (one real method call = one critical section each, except P and AP):
-//   P cid sid key to pick     propose            R to pick      read index
-//   C key to  S key to  Q     config change / snapshot / raft log query request
-//   D i   L i                 client drains the channels of request i / calls Release
-//   TP b  TR  AR lo hi  RY lo hi idx  RA a  RD lo hi  T t  GP k  GC  GS
-//   DP cid sid key  DC key  TC  TS  QR oor a b          (step worker; T is the real node.tick)
-//   QS b                      the shard enters (1) / leaves (0) the quiesced state
-//   PS cid reg key to pick  PB cid sid key to   session register/unregister request; oversized payload
-//   HR lo   PR lo hi idx a [fast lastCommitted]   AU cid sid key v rej idx ign   NG   XN    the real node.handleReadIndex,
-//        node.processReadyToRead, node.ApplyUpdate(notifyRead), node.gc, node.close
-//   (P R C S Q AP DP DC RD CP CC T go through the real node.go functions as well)
-//   AP cid sid key v rej  CA key rej  SA key ign abo idx (apply worker)
-//   CP cid sid key  CC key  CB cid sid key  CF           (commit worker; CB/CF = the two halves of
-//                                                          proposalShard.committed, replay only)
-//   XR  XP k  XC  XS  XL                                 (node.close(), table by table)
-//   XQ cid sid key to pick    propose(key) held before its first shard-lock section (queue / table inspected), then close of its shard
+//
+//	P cid sid key to pick     propose            R to pick      read index
+//	C key to  S key to  Q     config change / snapshot / raft log query request
+//	D i   L i                 client drains the channels of request i / calls Release
+//	TP b  TR  AR lo hi  RY lo hi idx  RA a  RD lo hi  T t  GP k  GC  GS
+//	DP cid sid key  DC key  TC  TS  QR oor a b          (step worker; T is the real node.tick)
+//	QS b                      the shard enters (1) / leaves (0) the quiesced state
+//	PS cid reg key to pick  PB cid sid key to   session register/unregister request; oversized payload
+//	HR lo   PR lo hi idx a [fast lastCommitted]   AU cid sid key v rej idx ign   NG   XN    the real node.handleReadIndex,
+//	     node.processReadyToRead, node.ApplyUpdate(notifyRead), node.gc, node.close
+//	(P R C S Q AP DP DC RD CP CC T go through the real node.go functions as well)
+//	AP cid sid key v rej  CA key rej  SA key ign abo idx (apply worker)
+//	CP cid sid key  CC key  CB cid sid key  CF           (commit worker; CB/CF = the two halves of
+//	                                                       proposalShard.committed, replay only)
+//	XR  XP k  XC  XS  XL                                 (node.close(), table by table)
+//	XQ cid sid key to pick    propose(key) held before its first shard-lock section (queue / table inspected), then close of its shard
+//
 // observation: one line per case, one token per op: <what>=<table sizes>.
 package main
 
@@ -56,30 +58,30 @@ type reqRec struct {
 }
 
 type world struct {
-	v         *dragonboat.VerifC12
-	ps        uint64
-	nc        bool
-	reqs      []*reqRec
-	chanOwner map[chan dragonboat.RequestResult]int
-	ccKey     map[uint64]uint64
-	ssKey     map[uint64]uint64
-	taken     []int // request numbers in the step worker's hands
-	queued    []int // request numbers in the read queue
-	tick      uint64
-	maxTick   uint64
-	drains    int
-	closedAny bool
-	closed    map[string]bool
-	oplog     map[string]bool // "AP cid sid key v rej", "DP ...", ...
-	ready     map[string]uint64
-	readyOK   map[string]bool // ctx whose index was covered by a later RA
-	lqOut     bool
-	assumeBad bool // the case itself broke an environment assumption (double close ...)
-	clockStuck string
-	apiBad     string
-	ctxMap     map[string][2]uint64
+	v            *dragonboat.VerifC12
+	ps           uint64
+	nc           bool
+	reqs         []*reqRec
+	chanOwner    map[chan dragonboat.RequestResult]int
+	ccKey        map[uint64]uint64
+	ssKey        map[uint64]uint64
+	taken        []int // request numbers in the step worker's hands
+	queued       []int // request numbers in the read queue
+	tick         uint64
+	maxTick      uint64
+	drains       int
+	closedAny    bool
+	closed       map[string]bool
+	oplog        map[string]bool // "AP cid sid key v rej", "DP ...", ...
+	ready        map[string]uint64
+	readyOK      map[string]bool // ctx whose index was covered by a later RA
+	lqOut        bool
+	assumeBad    bool // the case itself broke an environment assumption (double close ...)
+	clockStuck   string
+	apiBad       string
+	ctxMap       map[string][2]uint64
 	earlyEnqueue string
-	committed map[string]bool
+	committed    map[string]bool
 }
 
 const (
@@ -760,6 +762,9 @@ func (w *world) truthful(r *reqRec, g recv) string {
 }
 
 func runCase(line string, st *vh.Stats) string {
+	if f := strings.Fields(line); len(f) > 1 && f[1] == "LIVE" {
+		return runLive(line, st)
+	}
 	id := strings.Fields(line)[0]
 	rest := strings.TrimSpace(line[len(id):])
 	head, body := rest, ""
@@ -848,7 +853,9 @@ func runCase(line string, st *vh.Stats) string {
 }
 
 func main() {
-	logger.GetLogger("dragonboat").SetLevel(logger.CRITICAL)
+	for _, pkg := range []string{"dragonboat", "raft", "rsm", "logdb", "transport", "grpc", "config", "raftpb", "utils", "tan", "registry", "server", "settings", "pebblekv"} {
+		logger.GetLogger(pkg).SetLevel(logger.CRITICAL)
+	}
 	a := vh.ParseArgs()
 	switch a.Mode {
 	case "gen":
@@ -863,6 +870,17 @@ func main() {
 		w := vh.Create(a.Cases)
 		for i := 0; i < n; i++ {
 			w.Printf("%d %s\n", i, genCase(r, a.Tier == "thorough"))
+		}
+		// live NodeHost cases: racing clients, tiny timeouts, StopShard / Close in the middle
+		nl := 2
+		if a.Tier == "thorough" {
+			nl = 24
+		}
+		if a.N > 0 && a.N < 200 {
+			nl = 0
+		}
+		for i := 0; i < nl; i++ {
+			w.Printf("L%d LIVE seed=%d nc=%d clients=%d ms=%d stop=%d\n", i, r.U64()%100000, i%2, 3+r.Intn(4), 60+r.Intn(120), (i/2)%2)
 		}
 		w.Close()
 	case "run":
